@@ -10,9 +10,9 @@ use std::collections::BTreeSet;
 
 pub static DEF: PropDef = PropDef {
     id: "C17",
-    rule: "regex ASTs (literal a/b/c/'.'/'+'/'?'/newline (the '+' and '?' ordinary in the basic syntaxes, written [+] [?] where they are operators), any-char '.', positive/negative bracket sets with ranges, concatenation, alternation, grouping, '*', '+', '?', intervals {m}, {m,}, {m,n} with n <= 3) of depth <= 5, rendered into each supported syntax using only the constructs GNU find documents for it (emacs: \\( \\) \\| * + ?; posix-basic / ed / sed / grep: \\( \\) \\| * \\+ \\? \\{m,n\\}; posix-extended: ( ) | * + ? {m,n}); the literals ( ) | (ordinary outside posix-extended, backslashed there - and an unmatched ')' also bare there); in a third of the cases the whole pattern between anchors that change nothing about its language (^ or \\` in front, $ or \\' or a group and $ behind), alternation branches also rendered in reversed order; subjects: strings generated FROM the AST (members), their proper prefixes and one-character extensions (the prefix/substring trap), one-character edits, random strings over the same alphabet, and (where the pattern has no '.' or negated set, the only constructs that could consume it) members followed or preceded by a newline and further text, all embedded as paths r/<subject> with the pattern prefixed by the literal r/. Oracle: an independent set-of-end-positions matcher over the AST deciding membership of the ENTIRE path (ASCII case folding for -iregex). tier A through the verif-hooks entry point: exhaustive over every AST of <= 4 (thorough 5) nodes on {a, b, .} x every subject of <= 4 symbols over {a, b} x every syntax x both case modes, then random; tier B end to end: find r [-regextype T] -regex|-iregex P -print0 on a directory whose files are named by the subjects; positional -regextype: the option placed before a parenthesised group, inside an earlier group, twice with different types. Non-trivial = the AST contains an alternation or a counted repetition (+, ?, interval), and the subject set contains a member, a non-member, and a proper prefix of a member that is itself a member of one alternative or a non-member. Distinct = distinct case JSON.",
+    rule: "regex ASTs (literal a/b/c/'.'/'+'/'?'/newline (the '+' and '?' ordinary in the basic syntaxes, written [+] [?] where they are operators), any-char '.', positive/negative bracket sets with ranges, concatenation, alternation, grouping, '*', '+', '?', intervals {m}, {m,}, {m,n} with n <= 3) of depth <= 5, rendered into each supported syntax using only the constructs GNU find documents for it (emacs: \\( \\) \\| * + ?; posix-basic / ed / sed / grep: \\( \\) \\| * \\+ \\? \\{m,n\\}; posix-extended: ( ) | * + ? {m,n}); the literals ( ) | (ordinary outside posix-extended, backslashed there - and an unmatched ')' also bare there); in a fifth of the cases the pattern begins (after the starting-point prefix) with a group holding a word and a back-reference to it, so that its language is W W L(re); in a third of the cases the whole pattern between anchors that change nothing about its language (^ or \\` in front, $ or \\' or a group and $ behind), alternation branches also rendered in reversed order; subjects: strings generated FROM the AST (members), their proper prefixes and one-character extensions (the prefix/substring trap), one-character edits, random strings over the same alphabet, and (where the pattern has no '.' or negated set, the only constructs that could consume it) members followed or preceded by a newline and further text, all embedded as paths r/<subject> with the pattern prefixed by the literal r/. Oracle: an independent set-of-end-positions matcher over the AST deciding membership of the ENTIRE path (ASCII case folding for -iregex). tier A through the verif-hooks entry point: exhaustive over every AST of <= 4 (thorough 5) nodes on {a, b, .} x every subject of <= 4 symbols over {a, b} x every syntax x both case modes, then random; tier B end to end: find r [-regextype T] -regex|-iregex P -print0 on a directory whose files are named by the subjects; positional -regextype: the option placed before a parenthesised group, inside an earlier group, twice with different types. Non-trivial = the AST contains an alternation or a counted repetition (+, ?, interval), and the subject set contains a member, a non-member, and a proper prefix of a member that is itself a member of one alternative or a non-member. Distinct = distinct case JSON.",
     assumptions: &[
-        "back-references, anchors inside patterns (anchors around the whole pattern are generated), POSIX classes, case folding beyond ASCII are not generated; newlines in paths only for patterns without . and negated sets",
+        "back-references other than the leading group-and-reference, anchors inside patterns (anchors around the whole pattern are generated), POSIX classes, case folding beyond ASCII are not generated; newlines in paths only for patterns without . and negated sets",
         "only constructs GNU find documents for each syntax are rendered (emacs without intervals)",
         "nested repetition is always rendered with an explicit group",
         "random patterns nest at most two unbounded repetitions and never repeat an operand that can match the empty string (patterns on which a backtracking engine hits its retry limit are outside this check; the exhaustive sub-run does contain small ones such as (a*)*)",
@@ -473,6 +473,10 @@ pub struct Case {
     /// bit 4: in posix-extended a literal `)` outside every group is written without its backslash
     #[serde(default)]
     pub anchors: u8,
+    /// a word W: the pattern (after the starting-point prefix) begins with a group holding W and a
+    /// back-reference to it, i.e. its language is W W L(re)
+    #[serde(default)]
+    pub backref: Option<String>,
 }
 
 /// the pattern text of a case for the AST `f` (the case's AST, possibly prefixed)
@@ -480,6 +484,13 @@ fn render_case(c: &Case, f: &Re) -> String {
     let fam = family(&c.syntax);
     let mut p = render(f, &c.syntax, c.rev_alt);
     let (open, close) = if fam == 3 { ("(", ")") } else { ("\\(", "\\)") };
+    if let Some(w) = c.backref.as_ref().filter(|_| !c.no_prefix) {
+        // `f` holds W twice after the prefix (see `with_backref`): the first becomes a group, the
+        // second a reference to it (group 2 if the whole pattern is put into a group below)
+        let at = p.find(&format!("r/{w}{w}")).expect("prefix and the doubled word are literal text") + 2;
+        let n = if c.anchors & 3 == 3 { 2 } else { 1 };
+        p.replace_range(at..at + 2 * w.len(), &format!("{open}{w}{close}\\{n}"));
+    }
     if c.anchors & 3 == 3 {
         p = format!("{open}{p}{close}");
     }
@@ -581,20 +592,42 @@ pub fn gen_case(g: &mut Gen) -> Case {
     let re = gen_re(g, d);
     let ok: Vec<&str> = SYNTAXES.iter().copied().filter(|s| re.expressible(s)).collect();
     let syntax = g.pick(&ok).to_string();
-    let subjects = gen_subjects(g, &re);
+    let mut subjects = gen_subjects(g, &re);
     let anchors = if g.chance(1, 3) { g.weighted(&[3, 4, 2, 2]) as u8 | (g.weighted(&[4, 2, 1]) as u8) << 2 | if g.chance(1, 3) { 16 } else { 0 } } else { 0 };
-    Case { re, subjects, syntax, icase: g.chance(1, 3), rev_alt: g.chance(1, 3), no_prefix: g.chance(1, 5), anchors }
+    let no_prefix = g.chance(1, 5);
+    let backref = if !no_prefix && g.chance(1, 5) { Some(g.pick(&["a", "ab", "b", "c", "ba"]).to_string()) } else { None };
+    if let Some(w) = &backref {
+        // subjects of W W L(re): the doubled word in front, and near-misses of it
+        let other = if w == "a" { "b" } else { "a" };
+        subjects = subjects.iter().flat_map(|s| [format!("{w}{w}{s}"), format!("{w}{s}"), format!("{w}{other}{s}")]).collect();
+        subjects.sort();
+        subjects.dedup();
+        subjects.truncate(60);
+    }
+    Case { re, subjects, syntax, icase: g.chance(1, 3), rev_alt: g.chance(1, 3), no_prefix, anchors, backref }
 }
 
 fn full(re: &Re) -> Re {
     Re::Cat(vec![Re::Lit('r'), Re::Lit('/'), re.clone()])
 }
 
+/// the case's AST behind the doubled word of its back-reference, if it has one
+fn with_backref(c: &Case) -> Re {
+    match c.backref.as_ref().filter(|_| !c.no_prefix) {
+        Some(w) => {
+            let mut v: Vec<Re> = w.chars().chain(w.chars()).map(Re::Lit).collect();
+            v.push(c.re.clone());
+            Re::Cat(v)
+        }
+        None => c.re.clone(),
+    }
+}
+
 fn full_of(c: &Case) -> Re {
     if c.no_prefix {
         c.re.clone()
     } else {
-        full(&c.re)
+        full(&with_backref(c))
     }
 }
 
@@ -728,7 +761,7 @@ fn check_e2e(ctx: &mut Ctx, e: &E2e) -> Outcome {
     }
     // the end-to-end tier always uses the prefixed form; find runs with cwd = sandbox root and the
     // tree is c/r (chdir is process-wide), so the prefix is c/r/
-    let f = Re::Cat(vec![Re::Lit('c'), Re::Lit('/'), Re::Lit('r'), Re::Lit('/'), c.re.clone()]);
+    let f = Re::Cat(vec![Re::Lit('c'), Re::Lit('/'), Re::Lit('r'), Re::Lit('/'), with_backref(c)]);
     let pattern_c = render_case(c, &f);
     let test = if c.icase { "-iregex" } else { "-regex" };
     // a syntax in which the pattern text would mean something else, to expose a lost -regextype
@@ -846,14 +879,15 @@ fn run(w: &mut Worker) {
                 continue;
             }
             for icase in [false, true] {
-                cases.push(Case { re: re.clone(), subjects: subs.clone(), syntax: syn.to_string(), icase, rev_alt: false, no_prefix: false, anchors: 0 });
+                cases.push(Case { re: re.clone(), subjects: subs.clone(), syntax: syn.to_string(), icase, rev_alt: false, no_prefix: false, anchors: 0, backref: None });
             }
             // ^...$ and \`...\' around the whole pattern
             for anchors in [1 | 1 << 2, 2 | 2 << 2] {
-                cases.push(Case { re: re.clone(), subjects: subs.clone(), syntax: syn.to_string(), icase: false, rev_alt: false, no_prefix: false, anchors });
+                cases.push(Case { re: re.clone(), subjects: subs.clone(), syntax: syn.to_string(), icase: false, rev_alt: false, no_prefix: false, anchors, backref: None });
             }
             if re.has_alt() {
-                cases.push(Case { re: re.clone(), subjects: subs.clone(), syntax: syn.to_string(), icase: false, rev_alt: true, no_prefix: true, anchors: 1 });
+                cases.push(Case { re: re.clone(), subjects: subs.clone(), syntax: syn.to_string(), icase: false, rev_alt: true, no_prefix: true, anchors: 1, backref: None });
+                cases.push(Case { re: re.clone(), subjects: subs.iter().flat_map(|s| [format!("aa{s}"), format!("a{s}")]).collect(), syntax: syn.to_string(), icase: false, rev_alt: true, no_prefix: false, anchors: 0, backref: Some("a".into()) });
             }
         }
     }
